@@ -22,7 +22,7 @@ let rec stmt_of (x : Sx.t) : stmt =
   | "routes", [p; ms; extra; hs] -> SRoutes (str p, str ms, List.map str (Sx.args extra), hs_of hs, hdr)
   | "any", [p; hs] -> SAny (str p, hs_of hs, hdr)
   | "group", [p; hs; body] -> SGroup (str p, hs_of hs, List.map stmt_of (Sx.args body))
-  | "combo", p :: hs :: uses -> SCombo (str p, hs_of hs, List.map (fun u -> match Sx.args u with [m; h] -> (atom_str m, hs_of h) | _ -> failwith "use") uses)
+  | "combo", p :: hs :: uses -> SCombo (str p, hs_of hs, List.map (fun u -> match Sx.tag u, Sx.args u with "use", [m; h] -> CUse (atom_str m, hs_of h) | "autohead", [b] -> CAuto (bool_of b) | _ -> failwith "use") uses)
   | "autohead", [b] -> SAutoHead (bool_of b)
   | _ -> failwith ("stmt: " ^ Sx.show x)
 
